@@ -101,6 +101,16 @@ impl Agent for Box<Probe> {
         (**self).update(env, rng)
     }
 }
+/// `<Probe as SelfTy>::T` is `Probe` spelled as a qualified path
+pub trait SelfTy {
+    type T;
+}
+impl SelfTy for Probe {
+    type T = Probe;
+}
+impl SelfTy for MProbe {
+    type T = MProbe;
+}
 /// a type whose *name* merely contains a marker-type name
 pub type PhantomDataAgent = Probe2;
 pub struct MMarked<T> {
@@ -384,7 +394,7 @@ pub fn c20(ctx: &Ctx) -> i32 {
     let cov = json!({
         "evaluations": evals,
         "distinct_nontrivial": distinct.len(),
-        "rule": "cases = (struct shape, seed) pairs: 56 generated shapes per derive macro (1..8 fields, probe agent types incl. generic ones whose type text mentions PhantomData / Option / Vec / arrays / fn pointers / references / unit, boxed probes and type aliases, repeated types, nested derived sets, the three built-in agent families in between), each run for 4 update+step rounds through the derived impl and through the hand-written field-by-field sequence from cloned generator states on fresh environments; compared call by call (field tag, identity of the environment object, orders visible at entry, first two generator words), then environments and final generator state; distinct = distinct (shape, final order list) hashes; non-trivial = shapes with at least 2 fields",
+        "rule": "cases = (struct shape, seed) pairs: 64 generated shapes per derive macro (six of them declared through a macro_rules helper so that field types arrive as `$t:ty` fragments; parenthesised, type-macro and qualified-path field types) (1..8 fields, probe agent types incl. generic ones whose type text mentions PhantomData / Option / Vec / arrays / fn pointers / references / unit, boxed probes and type aliases, repeated types, nested derived sets, the three built-in agent families in between), each run for 4 update+step rounds through the derived impl and through the hand-written field-by-field sequence from cloned generator states on fresh environments; compared call by call (field tag, identity of the environment object, orders visible at entry, first two generator words), then environments and final generator state; distinct = distinct (shape, final order list) hashes; non-trivial = shapes with at least 2 fields",
         "samples": samples,
         "shapes": all.len(),
         "shapes_with_2_or_more_fields": shapes_multi,
